@@ -26,6 +26,7 @@ pub const TARGETS: &[Target] = &[
     ("gatesig", "GateSig", gatesig as Gen),
     ("gatereg", "GateReg", gatereg as Gen),
     ("gatetab", "GateTab", gatetab as Gen),
+    ("gateuf", "GateUF", gateuf as Gen),
 ];
 
 type R = Result<String, String>;
@@ -1665,4 +1666,181 @@ fn struct_lits_expr(e: &Expr, ty: &str, variant: &str, field: &str) -> Vec<Strin
     let mut v = StructLits { ty, variant, field, found: vec![] };
     syn::visit::Visit::visit_expr(&mut v, e);
     v.found
+}
+
+// ------------------------------------------------------------------- gateuf
+
+/// The alternatives of a pattern `Type::K(b, _, …) | …`: every alternative a tuple-struct pattern of `Type`
+/// whose first field binds the same identifier and whose other fields are `_`. Returns (variant names, binder).
+fn var_alternatives(p: &Pat, what: &str) -> Result<(Vec<String>, String), String> {
+    let mut alts = vec![];
+    fn flat<'a>(p: &'a Pat, out: &mut Vec<&'a Pat>) {
+        match p {
+            Pat::Or(o) => o.cases.iter().for_each(|c| flat(c, out)),
+            Pat::Paren(q) => flat(&q.pat, out),
+            other => out.push(other),
+        }
+    }
+    flat(p, &mut alts);
+    let mut names = vec![];
+    let mut binder: Option<String> = None;
+    for a in alts {
+        let Pat::TupleStruct(ts) = a else {
+            return Err(format!("{what}: alternative `{}` outside the model", toks(a)));
+        };
+        let segs: Vec<String> = ts.path.segments.iter().map(|x| x.ident.to_string()).collect();
+        if segs.len() != 2 || segs[0] != "Type" {
+            return Err(format!("{what}: alternative `{}` is not a variant of Type", toks(a)));
+        }
+        let mut it = ts.elems.iter();
+        let Some(Pat::Ident(b)) = it.next() else {
+            return Err(format!("{what}: `{}` does not bind its first field", toks(a)));
+        };
+        if b.by_ref.is_some() || b.mutability.is_some() || b.subpat.is_some() || it.any(|r| !matches!(r, Pat::Wild(_))) {
+            return Err(format!("{what}: `{}` outside the model", toks(a)));
+        }
+        let b = b.ident.to_string();
+        if binder.get_or_insert(b.clone()) != &b {
+            return Err(format!("{what}: alternatives bind different names"));
+        }
+        if names.contains(&segs[1]) {
+            return Err(format!("{what}: variant {} listed twice", segs[1]));
+        }
+        names.push(segs[1].clone());
+    }
+    let Some(b) = binder else { return Err(format!("{what}: no alternatives")) };
+    Ok((names, b))
+}
+
+fn live_stmts(b: &syn::Block) -> Vec<&Stmt> {
+    b.stmts
+        .iter()
+        .filter(|s| match s {
+            Stmt::Local(l) => !is_hook(&l.attrs),
+            Stmt::Item(_) => false,
+            _ => true,
+        })
+        .collect()
+}
+
+/// `UnionFind::find` / `find_ref`: a single `match &self.inner[index]` with one arm of variable patterns guarded by
+/// `*i != index` and one catch-all arm. `write` = the arm of `find` (recursive lookup, the slot overwritten with
+/// the answer, the answer returned); otherwise the arm of `find_ref` (recursive lookup only).
+fn uf_lookup(file: &syn::File, name: &str, write: bool) -> Result<Vec<String>, String> {
+    let f = find::func(file, name, Some("UnionFind"))?;
+    let what = format!("UnionFind::{name}");
+    let params = param_names(&f.sig).ok_or_else(|| format!("{what}: parameters outside the model"))?;
+    let [index] = &params[..] else { return Err(format!("{what}: expected one parameter besides self, found {params:?}")) };
+    let stmts = live_stmts(&f.block);
+    let [Stmt::Expr(Expr::Match(m), None)] = &stmts[..] else {
+        return Err(format!("{what}: the body is not a single `match`"));
+    };
+    if toks(&m.expr) != format!("&self.inner[{index}]") {
+        return Err(format!("{what}: matches on `{}`, not on `&self.inner[{index}]`", toks(&m.expr)));
+    }
+    let [a1, a2] = &m.arms[..] else { return Err(format!("{what}: {} arms, expected 2", m.arms.len())) };
+    let (names, b) = var_alternatives(&a1.pat, &what)?;
+    let guard = a1.guard.as_ref().map(|(_, g)| toks(g)).unwrap_or_default();
+    if guard != format!("*{b}!={index}") {
+        return Err(format!("{what}: guard `{guard}`, expected `*{b} != {index}`"));
+    }
+    let body = toks(&a1.body);
+    if write {
+        let Expr::Block(eb) = &*a1.body else { return Err(format!("{what}: arm body `{body}` outside the model")) };
+        let st = live_stmts(&eb.block);
+        let [Stmt::Local(l), s2, Stmt::Expr(ret, None)] = &st[..] else {
+            return Err(format!("{what}: arm body `{body}` is not `let n = self.{name}(*{b}); self.inner[{index}] = n.clone(); n`"));
+        };
+        let Pat::Ident(n) = &l.pat else { return Err(format!("{what}: `{}` outside the model", toks(l))) };
+        let n = n.ident.to_string();
+        let init = l.init.as_ref().map(|i| toks(&i.expr)).unwrap_or_default();
+        if init != format!("self.{name}(*{b})") || toks(s2) != format!("self.inner[{index}]={n}.clone();") || toks(ret) != n {
+            return Err(format!("{what}: arm body `{body}` is not `let {n} = self.{name}(*{b}); self.inner[{index}] = {n}.clone(); {n}`"));
+        }
+    } else if body != format!("{{self.{name}(*{b})}}") && body != format!("self.{name}(*{b})") {
+        return Err(format!("{what}: arm body `{body}` is not `self.{name}(*{b})`"));
+    }
+    let Pat::Ident(t) = &a2.pat else { return Err(format!("{what}: catch-all arm `{}` outside the model", toks(&a2.pat))) };
+    let t = t.ident.to_string();
+    let fall = toks(&a2.body);
+    let want = if write { format!("{t}.clone()") } else { t.clone() };
+    if a2.guard.is_some() || fall != want {
+        return Err(format!("{what}: catch-all arm `{t} => {fall}`, expected `{t} => {want}`"));
+    }
+    Ok(names)
+}
+
+/// `TypeInfo::resolve`: `let mut t = t.clone(); if let <variable patterns> = t { t = self.unionfind.find(x).clone(); } t`
+fn resolve_follows(repo: &Path) -> Result<Vec<String>, String> {
+    let info = find::parse(repo, "src/typechecker/info.rs")?;
+    let f = find::func(&info, "resolve", Some("TypeInfo"))?;
+    let what = "TypeInfo::resolve";
+    let params = param_names(&f.sig).ok_or_else(|| format!("{what}: parameters outside the model"))?;
+    let [t] = &params[..] else { return Err(format!("{what}: expected one parameter besides self")) };
+    let stmts = live_stmts(&f.block);
+    let [s1, Stmt::Expr(Expr::If(i), _), Stmt::Expr(ret, None)] = &stmts[..] else {
+        return Err(format!("{what}: body is not `let mut {t} = {t}.clone(); if let … = {t} {{ … }} {t}`"));
+    };
+    if toks(s1) != format!("letmut{t}={t}.clone();") || toks(ret) != *t || i.else_branch.is_some() {
+        return Err(format!("{what}: body is not `let mut {t} = {t}.clone(); if let … = {t} {{ … }} {t}`"));
+    }
+    let Expr::Let(l) = &*i.cond else { return Err(format!("{what}: condition `{}` outside the model", toks(&i.cond))) };
+    if toks(&l.expr) != *t {
+        return Err(format!("{what}: `if let` examines `{}`, not `{t}`", toks(&l.expr)));
+    }
+    let (names, x) = var_alternatives(&l.pat, what)?;
+    let then = toks(&i.then_branch);
+    if then != format!("{{{t}=self.unionfind.find({x}).clone();}}") && then != format!("{{{t}=self.unionfind.find({x});}}") {
+        return Err(format!("{what}: `{then}` is not `{t} = self.unionfind.find({x}).clone();`"));
+    }
+    Ok(names)
+}
+
+/// `gateuf` → `Generated/GateUF.lean`: the variable kinds `UnionFind::find`, `UnionFind::find_ref` and
+/// `TypeInfo::resolve` list (the rest of the three bodies is asserted statement by statement: the guard
+/// `*i != index`, the recursive call, the one write `self.inner[index] = new_t.clone()`, the catch-all arm).
+fn gateuf(repo: &Path) -> R {
+    let uf = find::parse(repo, "src/typechecker/unionfind.rs")?;
+    let f = uf_lookup(&uf, "find", true)?;
+    let r = uf_lookup(&uf, "find_ref", false)?;
+    let res = resolve_follows(repo)?;
+    // the table is only written through `find`, `fresh`, `set`: no other method of the library takes `&mut self`
+    for it in &uf.items {
+        let syn::Item::Impl(i) = it else { continue };
+        if is_hook(&i.attrs) || i.trait_.is_some() || toks(&i.self_ty) != "UnionFind" {
+            continue;
+        }
+        for m in &i.items {
+            let syn::ImplItem::Fn(m) = m else { continue };
+            if is_hook(&m.attrs) {
+                continue;
+            }
+            let name = m.sig.ident.to_string();
+            let body = toks(&m.block);
+            let mutable = matches!(m.sig.inputs.first(), Some(syn::FnArg::Receiver(r)) if r.mutability.is_some());
+            match name.as_str() {
+                "find" | "find_ref" => {}
+                "set" => {
+                    if body != "{self.inner[index]=t;}" {
+                        return Err(format!("UnionFind::set: body `{body}` outside the model"));
+                    }
+                }
+                "fresh" => {
+                    if body.matches("self.inner").count() != 2 || !body.contains("self.inner.push(") || !body.contains("self.inner.len()") {
+                        return Err(format!("UnionFind::fresh: body `{body}` outside the model"));
+                    }
+                }
+                _ if mutable => return Err(format!("UnionFind::{name} takes `&mut self`: a writer of the table outside the model")),
+                _ => {}
+            }
+        }
+    }
+    let list = |v: &Vec<String>| v.iter().map(|a| lit_ident(a)).collect::<Vec<_>>().join(", ");
+    let mut out = String::new();
+    out.push_str("/- GENERATED by /verif/extract from src/typechecker/unionfind.rs, src/typechecker/info.rs — do not edit. -/\nimport RotoV.Model.GateUF\nnamespace RotoV.Gen.GateUF\n\n");
+    out.push_str(&format!("/-- `UnionFind::find`: the `Type` variants whose index the first arm goes on with (guard `*i != index`) -/\ndef findFollows : List (List Nat) := [{}]\n\n", list(&f)));
+    out.push_str(&format!("/-- `UnionFind::find_ref`: likewise -/\ndef findRefFollows : List (List Nat) := [{}]\n\n", list(&r)));
+    out.push_str(&format!("/-- `TypeInfo::resolve`: the `Type` variants that are looked up with `find` -/\ndef resolveFollows : List (List Nat) := [{}]\n\n", list(&res)));
+    out.push_str("end RotoV.Gen.GateUF\n");
+    Ok(out)
 }
